@@ -53,7 +53,7 @@ PLAN = {
     "C02": {
         "quick": {"laws": ["MC_Semantics_cov.cfg", "MC_Semantics_laws_all.cfg", "MC_Semantics_laws_flow.cfg"],
                   "gen": [("andor", 6), ("flow", 4), ("loops", 5), ("loops2", 7), ("funcs", 4), ("case", 4)],
-                  "variants": 2, "random": (1500, 40, "c02"), "real": ("flow", 4, 30)},
+                  "variants": 2, "random": (1200, 40, "c02"), "real": ("flow", 4, 40)},
         "thorough": {"laws": ["MC_Semantics_cov.cfg", "MC_Semantics_laws_all.cfg", "MC_Semantics_laws_flow5.cfg"],
                      "gen": [("andor", 7), ("flow", 5), ("loops", 6), ("loops2", 7), ("funcs", 5), ("case", 5),
                              ("sim12", 12)],
@@ -61,8 +61,8 @@ PLAN = {
     },
     "C10": {
         "quick": {"laws": ["MC_Semantics_cov.cfg", "MC_Semantics_laws_all.cfg", "MC_Semantics_laws_errors.cfg"],
-                  "gen": [("errexit", 4), ("errors", 4), ("errfn", 6), ("syn", 5)],
-                  "variants": 2, "random": (1000, 40, "c10"), "real": ("errors", 3, 4)},
+                  "gen": [("errexit", 4), ("errors", 4), ("errfn", 6), ("syn", 4)],
+                  "variants": 2, "random": (800, 40, "c10"), "real": ("errors", 3, 8)},
         "thorough": {"laws": ["MC_Semantics_cov.cfg", "MC_Semantics_laws_all.cfg", "MC_Semantics_laws_errors.cfg",
                               "MC_Semantics_laws_errexit.cfg"],
                      "gen": [("errexit", 5), ("errors", 4), ("errors5", 5), ("errfn", 7), ("syn", 6), ("simerr", 10)],
